@@ -38,6 +38,13 @@ func (c *Ctx) userNamespaces(k int) []share.Namespace {
 		default:
 			sub = bytes.Repeat([]byte{0xff}, c.rng.Range(1, 10))
 		}
+		if c.rng.Chance(1, 5) {
+			// look-alikes of the reserved namespaces: the low bytes of a reserved constant (tx 01, pay-for-blob 04,
+			// reserved padding ff) with ONE non-zero byte elsewhere in the 10-byte user part
+			sub = make([]byte, 10)
+			sub[9] = byte(c.rng.Pick([]int{0x01, 0x04, 0xff, 0x02}))
+			sub[c.rng.Intn(9)] = byte(c.rng.Pick([]int{0x01, 0x80, 0xab, 0xff}))
+		}
 		ns, err := share.NewV0Namespace(sub)
 		if err != nil || ns.ValidateForBlob() != nil || seen[string(ns.Bytes())] {
 			continue
@@ -139,8 +146,63 @@ func blobsStr(bs []*share.Blob) string {
 	return out + "]"
 }
 
+// payload returns n bytes of blob / transaction content: mostly random, sometimes structured so that
+// content can be mistaken for format (zero runs at the offsets where a continuation share's payload
+// begins, all zero, all 0xff, bytes that look like a share header)
+func (c *Ctx) payload(n int) []byte {
+	b := c.rng.Bytes(n)
+	if n == 0 {
+		return b
+	}
+	switch c.rng.Intn(14) {
+	case 0:
+		for i := range b {
+			b[i] = 0
+		}
+		b[n-1] = byte(c.rng.Range(0, 1)) // all zero, or all zero but the last byte
+	case 1:
+		for i := range b {
+			b[i] = 0xff
+		}
+	case 2, 3:
+		// zero runs where the payload of a continuation share begins: sparse 478+482k (458+482k with signer),
+		// compact 474+478k (and the byte before / after)
+		for _, base := range []int{478, 458, 474} {
+			step := 482
+			if base == 474 {
+				step = 478
+			}
+			for off := base; off < n; off += step {
+				if c.rng.Chance(2, 3) {
+					st := off + c.rng.Pick([]int{0, 0, 0, -1, 1})
+					for i := st; i < st+c.rng.Pick([]int{4, 4, 8, 30}) && i < n; i++ {
+						if i >= 0 {
+							b[i] = 0
+						}
+					}
+				}
+			}
+		}
+	case 4:
+		// content that looks like a share header: a namespace followed by an info byte and a length
+		hdr := append(append([]byte(nil), share.TxNamespace.Bytes()...), 1, 0, 0, 0, 0)
+		if c.rng.Bool() {
+			hdr = append(append([]byte(nil), share.TailPaddingNamespace.Bytes()...), 1, 0, 0, 0, 0)
+		}
+		for off := c.rng.Pick([]int{0, 478, 458}); off < n; off += 482 {
+			copy(b[off:], hdr)
+		}
+	case 5:
+		b[n-1] = 0 // ends in a zero byte
+		if n > 1 && c.rng.Bool() {
+			b[n-2] = 0
+		}
+	}
+	return b
+}
+
 func (c *Ctx) randBlob(ns share.Namespace, n int, v1 bool) blobSpec {
-	b := blobSpec{ns: ns.Bytes(), data: c.rng.Bytes(n)}
+	b := blobSpec{ns: ns.Bytes(), data: c.payload(n)}
 	if v1 {
 		b.ver = 1
 		b.signer = c.rng.Bytes(20)
@@ -207,7 +269,7 @@ func (c *Ctx) makeBlobTx(specs []blobSpec, fillerLen int) []byte {
 // normalTx returns random bytes that UnmarshalBlobTx does not recognise as a blob tx.
 func (c *Ctx) normalTx(n int) []byte {
 	for {
-		b := c.rng.Bytes(n)
+		b := c.payload(n)
 		if _, is, _ := tx.UnmarshalBlobTx(b); !is {
 			return b
 		}
